@@ -121,7 +121,7 @@ class H2ConnectionStateMachine:
         (ConnectionState.IDLE, ConnectionInputs.SEND_ALTERNATIVE_SERVICE):
             (None, ConnectionState.SERVER_OPEN),
         (ConnectionState.IDLE, ConnectionInputs.RECV_ALTERNATIVE_SERVICE):
-            (None, ConnectionState.CLIENT_OPEN),
+            (None, ConnectionState.IDLE),
 
         # State: open, client side.
         (ConnectionState.CLIENT_OPEN, ConnectionInputs.SEND_HEADERS):
